@@ -37,6 +37,9 @@ func (o *CANConfig) UnmarshalBinary(data []byte) error {
 	if o == nil {
 		return fmt.Errorf("cannot unmarshal to a nil pointer")
 	}
+	if len(data) <= canCfgBaudrateOffset {
+		return fmt.Errorf("unexpected CANConfig length: want: %d, got: %d", canCfgBaudrateOffset+1, len(data))
+	}
 	o.Enable = (data[canCfgEnableOffset] & canCfgEnableMask) == 1
 	o.BaudRate = CANBaudRateID(data[canCfgBaudrateOffset] & canCfgBaudrateMask)
 	return nil
